@@ -6,6 +6,8 @@
    carries its SubStreamsInfo; embed_nosub: the graph for a header that omits the section;
    embed_nostreams: the graph for a header without MainStreamsInfo. *)
 From P7 Require Import Prelude PyPrims Number Header Spec Assign AssignProofs.
+From P7 Require PackInfoGen.
+From P7gen Require ArchiveinfoRecords.
 Open Scope Z_scope.
 
 Example C06_spec_reads_minimal_header :
@@ -204,3 +206,20 @@ Example C06_no_substreams_example :
     plans_agree 0 (spec_plans w_nosub3) ps = true /\
     impl_plans_before_repair (embed_nosub w_nosub3) = Err EOther.
 Proof. exact assign_no_substreams_example. Qed.
+
+(* ---- third wave (stage 1): the header record readers as translated on this run (coq/gen/ArchiveinfoRecords.v, regenerated
+   from py7zr/archiveinfo.py) are the parser of Header.v that embed / impl_plans are about.  An object is a record with
+   one field per attribute; PackInfoGen.pack_of forgets the derived attributes packpositions / enable_digests.
+   Side conditions, exactly: the input is a byte string (wf_bytes); the model's resource guard did not fire (the code has no
+   such guard: it would try to allocate). ---- *)
+Theorem C06_gen_PackInfo_retrieve_is_parse_packinfo : forall lim bs, wf_bytes bs = true ->
+  parse_packinfo lim bs <> Err EFuel ->
+  (do (o, r) <- ArchiveinfoRecords.PackInfo_retrieve bs; Ok (PackInfoGen.pack_of o, r)) = parse_packinfo lim bs.
+Proof. exact PackInfoGen.gen_PackInfo_retrieve_eq_model. Qed.
+Print Assumptions C06_gen_PackInfo_retrieve_is_parse_packinfo.
+
+Example C06_gen_PackInfo_example :
+  (do (o, r) <- ArchiveinfoRecords.PackInfo_retrieve [5; 2; 9; 40; 129; 44; 10; 0; 128; 120; 86; 52; 18; 0; 77];
+   Ok (PackInfoGen.pack_of o, r)) = Ok (mkPack 5 2 [40; 300] [true; false] [305419896; 0], [77])
+  /\ ArchiveinfoRecords.PackInfo_retrieve [5; 0; 7] = Err EBad7z.
+Proof. split; vm_compute; reflexivity. Qed.
